@@ -59,7 +59,10 @@ class ChunkedSource(io.RawIOBase):
         return self.pieces.pop(0) if self.pieces else b""
 
 
-def real_parse(uni, clazz, data: bytes, handler: str, config=None, files=None, xinclude=False, cuts=None):
+_SHARED_PARSERS: dict = {}
+
+
+def real_parse(uni, clazz, data: bytes, handler: str, config=None, files=None, xinclude=False, cuts=None, shared=False):
     """XmlParser(handler).from_bytes, or .from_path on a scratch directory when the
     document is split with XInclude, or .parse of a source that is read in the pieces given
     by `cuts`.  Returns the canonical {"ok"| "err"} shape."""
@@ -73,7 +76,15 @@ def real_parse(uni, clazz, data: bytes, handler: str, config=None, files=None, x
     cfg = dict(config or {})
     if xinclude:
         cfg["process_xinclude"] = True
-    p = XmlParser(context=XmlContext(models_package=uni.modname), config=ParserConfig(**cfg), handler=h)
+    if shared:
+        # one parser (context, metadata and xsi caches, recorder map) for all documents of a universe:
+        # a result must not depend on what was parsed before
+        key = (uni.modname, handler, json.dumps(cfg, sort_keys=True))
+        if key not in _SHARED_PARSERS:
+            _SHARED_PARSERS[key] = XmlParser(context=XmlContext(models_package=uni.modname), config=ParserConfig(**cfg), handler=h)
+        p = _SHARED_PARSERS[key]
+    else:
+        p = XmlParser(context=XmlContext(models_package=uni.modname), config=ParserConfig(**cfg), handler=h)
     d = None
     try:
         with warnings.catch_warnings(record=True) as w:
@@ -192,6 +203,12 @@ def handlers_for(kinds, info, tree, ann, new_tree):
     return hs
 
 
+def _nodes(t):
+    yield t
+    for c in t["c"]:
+        yield from _nodes(c)
+
+
 def norm_tree(t):
     return {"q": t["q"], "a": t["a"], "ns": sorted(([p or "", u] for p, u in t["ns"])), "t": t["t"] or None,
             "c": [norm_tree(c) for c in t["c"]], "tl": t["tl"] or None}
@@ -233,6 +250,9 @@ def gen_respelled(rng, tier):
                 raise RuntimeError("c09_rewrite: respelled document does not have the reported infoset: %r" % data[:400])
             cuts = [] if info["xinclude"] else pick_cuts(rng, data)
             config = rng.choice(CONFIGS)
+            feat = ("Q" if prefix_sensitive(tree, ann) else "") + ("W" if any(v.get("wrapper") for v in ann.values()) else "") + \
+                   ("M" if any((n_.get("tl") or "").strip() for n_ in _nodes(tree)) else "") + \
+                   ("O" if any(v.get("opaque") for v in ann.values()) else "")
             # the two handlers leave different trees behind when a part comes from another directory (xml:base)
             groups = [[h] for h in hs] if has_xml_base(new_tree) else [hs]
             for group in groups:
@@ -241,6 +261,7 @@ def gen_respelled(rng, tier):
                     "_uni": u.modname, "_kind": kind, "_kinds": info["kinds"] + (["chunks"] if cuts else []), "_doc": b64(data),
                     "_files": {k: b64(v) for k, v in files.items()},
                     "_handlers": group, "_orig": b64(orig), "_xinclude": info["xinclude"], "_encoding": info["encoding"], "_cuts": cuts,
+                    "_feat": feat or "-", "_shared": rng.random() < 0.5,
                 }
 
 
@@ -279,7 +300,7 @@ def impl_respelled(a):
     outs = []
     for h in a["_handlers"]:
         outs.append(real_parse(u, a["clazz"], unb64(a["_doc"]), h, a["config"], {k: unb64(v) for k, v in a["_files"].items()},
-                               a["_xinclude"], a.get("_cuts")))
+                               a["_xinclude"], a.get("_cuts"), bool(a.get("_shared"))))
     if all(o == outs[0] for o in outs):
         return outs[0]
     return {"err": "HANDLERS-DISAGREE", "outs": outs}
@@ -295,7 +316,7 @@ def classify_respelled(a, o):
     r = "ok" if "ok" in o else o.get("err", "unsupported")
     ks = a.get("_kinds", [])
     tag = "ctrlpad" if "ctrl_pad" in ks else "xinclude" if "xinclude" in ks else "encoding" if "encoding" in ks else "prefix" if ("prefix" in ks or "default" in ks) else "other"
-    return f"{a.get('_kind', '?')}:{tag}:{'+'.join(a.get('_handlers', []))}:{r}"
+    return f"{a.get('_kind', '?')}:{tag}:{a.get('_feat', '')}:{'+'.join(a.get('_handlers', []))}:{r}"
 
 
 # ------------------------------------------------------------------ c09.tails: the tails the handlers pass, per read chunk layout
@@ -570,6 +591,18 @@ def gen_xinclude(rng, tier):
 
         main = "/d/main.xml"
         files[main] = None
+        if rng.random() < 0.08:
+            # a chain of includes around DEFAULT_MAX_INCLUSION_DEPTH = 6
+            n = rng.choice([5, 6, 7, 8])
+            for i in range(1, n + 1):
+                inner = [{"d": [["xi", XI_NS]], "q": "{%s}include" % XI_NS, "a": [["href", "c%d.xml" % (i + 1)]], "s": "passed",
+                          "t": None, "c": [], "tl": None}] if i < n else []
+                files["/d/c%d.xml" % i] = {"d": [], "q": "e", "a": [], "s": "passed", "t": None if inner else "end", "c": inner, "tl": None}
+            files[main] = {"d": [], "q": "e", "a": [], "s": "passed", "t": None, "c": [
+                {"d": [["xi", XI_NS]], "q": "{%s}include" % XI_NS, "a": [["href", "c1.xml"]], "s": "passed", "t": None, "c": [], "tl": None}], "tl": None}
+            yield {"files": [[k, v] for k, v in files.items()], "main": main, "base": None, "path_source": True, "well_known": wk,
+                   "_mode": "chain%d" % n}
+            continue
         root = el(0, main)
         if not any(c["q"].endswith("}include") for c in root["c"]) and rng.random() < 0.8:
             root["c"].append(include(0, main))
@@ -653,6 +686,7 @@ def gen_oracle(rng, tier):
                 "desc": desc, "_uni": u.modname, "clazz": "Root", "config": {}, "orig": b64(orig), "doc": b64(data),
                 "files": {k: b64(v) for k, v in files.items()}, "xinclude": info["xinclude"],
                 "kinds": info["kinds"] + (["chunks"] if cuts else []), "encoding": info["encoding"], "cuts": cuts,
+                "shared": rng.random() < 0.5,
             }
 
 
@@ -662,7 +696,7 @@ def adapt_corr_case(op, a):
     return {
         "desc": a["desc"], "_uni": a.get("_uni"), "clazz": a["clazz"], "config": a.get("config", {}), "orig": a["_orig"],
         "doc": a["_doc"], "files": a["_files"], "xinclude": a["_xinclude"], "kinds": a["_kinds"], "encoding": a["_encoding"],
-        "cuts": a.get("_cuts") or [],
+        "cuts": a.get("_cuts") or [], "shared": bool(a.get("_shared")),
     }
 
 
@@ -672,7 +706,8 @@ def four_results(a):
     out = {}
     for h in ("native", "lxml"):
         out["orig/" + h] = py_eq_canon(real_parse(u, a["clazz"], unb64(a["orig"]), h, a["config"]))
-        out["new/" + h] = py_eq_canon(real_parse(u, a["clazz"], unb64(a["doc"]), h, a["config"], files, a["xinclude"], a.get("cuts")))
+        out["new/" + h] = py_eq_canon(real_parse(u, a["clazz"], unb64(a["doc"]), h, a["config"], files, a["xinclude"], a.get("cuts"),
+                                                 bool(a.get("shared"))))
     return out
 
 
@@ -768,7 +803,102 @@ def oracle_chunking(a):
     return None
 
 
+def _xi_expand_independent(files, name, parents=()):
+    """the merged document, put together here from the generated files (no xsdata, no ElementInclude)"""
+    tree = files.get(name)
+    if tree is None or name in parents or len(parents) > 5:
+        return None
+
+    def go(n, here):
+        kids = []
+        for c in n["c"]:
+            if c["q"] == "{%s}include" % XI_NS:
+                href = dict(c["a"]).get("href")
+                target = here.rsplit("/", 1)[0] + "/" + href
+                sub = _xi_expand_independent(files, target, parents + (name,))
+                if sub is None:
+                    raise LookupError(target)
+                sub = dict(sub)
+                sub["tl"] = ((sub["tl"] or "") + (c["tl"] or "")) or None
+                kids.append(sub)
+            else:
+                kids.append(go(c, here))
+        out = dict(n)
+        out["c"] = kids
+        return out
+
+    try:
+        return go(tree, name)
+    except LookupError:
+        return None
+
+
+def _xi_calls(handler_name, files, main, mode):
+    from xsdata.formats.dataclass.parsers.handlers import LxmlEventHandler, XmlEventHandler
+
+    h = XmlEventHandler if handler_name == "native" else LxmlEventHandler
+    d = tempfile.mkdtemp(prefix="c09-xi-")
+    cwd = os.getcwd()
+    try:
+        for name, tree in files.items():
+            os.makedirs(os.path.dirname(d + name[2:]), exist_ok=True)
+            with open(d + name[2:], "w", encoding="utf-8") as f:
+                f.write(_xi_print(tree))
+        stub = _StubParser()
+        stub.config.process_xinclude = True
+        stub.config.base_url = {"stream_base_file": d + main[2:], "stream_base_dir": d + "/", "path_base_empty": ""}.get(mode)
+        os.mkdir(d + "/empty")
+        os.chdir(d + "/empty")
+        try:
+            source = d + main[2:] if mode.startswith("path") or mode.startswith("chain") else io.BytesIO(open(d + main[2:], "rb").read())
+            h(parser=stub, clazz=None).parse(source, {})
+        except Exception as e:  # noqa: BLE001
+            return {"err": type(e).__name__}
+        calls = stub.calls
+        if handler_name == "lxml":
+            # the prefix maps of the two spellings differ by construction (declarations of the include
+            # elements); names, attributes, text and tails are what is compared
+            calls = [c[:3] if c[0] == "start" else c for c in calls if c[0] != "start-ns"]
+        return {"ok": calls}
+    finally:
+        os.chdir(cwd)
+        shutil.rmtree(d, ignore_errors=True)
+
+
+def oracle_xinclude(a):
+    """a document split over files, read from a path or from a stream with a base url, makes the handler
+    call the parser like the merged document does"""
+    files = {k: v for k, v in a["files"]}
+    merged = _xi_expand_independent(files, a["main"])
+    mode = a["_mode"]
+    if merged is None or mode == "stream_nobase":
+        return None  # nothing to merge (missing / recursive parts), or no base to resolve against
+    for hname in ("native", "lxml"):
+        if hname == "lxml" and mode == "path_base_empty":
+            continue  # lxml takes base_url="" literally (no document URL), get_base_url treats it as not given
+        ref = _xi_calls(hname, {a["main"]: merged}, a["main"], "path")
+        got = _xi_calls(hname, files, a["main"], mode)
+        if got != ref:
+            return f"{hname}, {mode}: split {json.dumps(got, ensure_ascii=False)[:300]} vs merged {json.dumps(ref, ensure_ascii=False)[:300]}"
+    return None
+
+
+def covered_xinclude(a, msg):
+    """the listed libxml2 behaviour: only the lxml handler, only with a part from another directory, and the
+    only difference is the xml:base attribute on included roots"""
+    if not (msg.startswith("lxml") and any("/sub/" in name for name, _ in a["files"])):
+        return None
+    files = {k: v for k, v in a["files"]}
+    merged = _xi_expand_independent(files, a["main"])
+    ref = _xi_calls("lxml", {a["main"]: merged}, a["main"], "path")
+    got = _xi_calls("lxml", files, a["main"], a["_mode"])
+    if "ok" in got:
+        got = {"ok": [[c[0], c[1], [kv for kv in c[2] if kv[0] != XML_BASE]] if c[0] == "start" else c for c in got["ok"]]}
+    return "c09-lxml-xinclude-xml-base" if got == ref else None
+
+
 ORACLES = [
+    Oracle("xinclude-split-equals-merged", gen_xinclude, oracle_xinclude, covered=covered_xinclude, from_ops=("c09.xinclude",)),
     Oracle("respelling-invariance", gen_oracle, oracle_check, covered=oracle_covered, from_ops=("bind.parse",), adapt=adapt_corr_case),
     Oracle("chunking-invariance", gen_tails, oracle_chunking, from_ops=("c09.tails",)),
 ]
